@@ -125,19 +125,34 @@ def build_execs(cases, rng, tier):
 def huge_execs(tier):
     """scales around and beyond the largest filter the 16.16 header can describe (32767 taps per axis): the call must
        either return a well-formed block or refuse (NULL) -- the latter only where Filter!Unrepresentable holds."""
-    sup = KW
+    sup = [int(w) for w in KW]          # kernel supports, as Filter!Support
     cases = []          # (rk, sk, scale, bits)
     MAXS = 0x7fffffff
-    if tier == "quick":
-        cases = [(1, 1, MAXS, 0), (0, 1, 32767 * 65536, 0), (2, 7, MAXS, 0), (0, 7, (32767 * 65536) // 8, 1)]
+    quick = tier == "quick"
+
+    def boundary_scales(rk, sk):
+        """the exact 16.16 scales at which the extent rw + s*sw crosses 32767 (last representable) and 32768, one
+           ulp on either side of both, and scales strictly between (fractional extents)"""
+        s1 = (32767 - sup[rk]) * 65536 // sup[sk]          # largest scale with extent <= 32767
+        s2 = -((-(32768 - sup[rk]) * 65536) // sup[sk])    # smallest scale with extent >= 32768
+        out = [s1 - 1, s1, s1 + 1, s2 - 1, s2, s2 + 1, (s1 + s2) // 2, s1 + (s2 - s1) // 4, s1 + 3 * (s2 - s1) // 4]
+        return sorted({sc for sc in out if 0 < sc <= MAXS})
+
+    if quick:
+        for rk, sk in ((1, 1), (0, 1), (2, 3), (0, 7)):
+            bs = boundary_scales(rk, sk)
+            s1 = (32767 - sup[rk]) * 65536 // sup[sk]
+            for sc in (s1, s1 + 1, [x for x in bs if x > s1 + 1][0]):
+                cases.append((rk, sk, sc, 0))
+        cases += [(1, 1, MAXS, 0), (2, 7, MAXS, 0), (0, 7, (32767 * 65536) // 8, 1)]
     else:
-        for rk, sk in ((0, 1), (1, 1), (2, 2), (0, 3), (4, 4), (5, 2), (6, 6), (0, 7), (3, 7), (7, 7)):
-            thr = int((32767 - sup[rk]) * 65536 // sup[sk])       # largest representable scale for this pair
-            for sc in (thr - 1, thr, thr + 1, thr + 65536, 1 << 30, 3 << 29, MAXS - 1, MAXS):
-                if 0 < sc <= MAXS:
+        for rk in (0, 1, 6):
+            for sk in range(1, 8):
+                for sc in boundary_scales(rk, sk):
                     cases.append((rk, sk, sc, 0))
-            cases.append((rk, sk, thr, 1))
-            cases.append((rk, sk, min(MAXS, thr + 1), 2))
+        for rk, sk in ((2, 2), (4, 4), (5, 2), (3, 7), (7, 7)):
+            bs = boundary_scales(rk, sk)
+            cases += [(rk, sk, bs[1], 1), (rk, sk, bs[2], 2), (rk, sk, 1 << 30, 0), (rk, sk, 3 << 29, 0), (rk, sk, MAXS, 0)]
         cases.append((1, 0, MAXS, 3))                               # sampling IMPULSE: never too wide
     execs = []
     for i, (rk, sk, sc, b) in enumerate(cases):
